@@ -1,3 +1,326 @@
-"""Contracts for the stream strategies that delegate to a budget manager (thin delegations) and for the
-BalancedIncrementalQuantileFilter — filled in incrementally; see UNITS."""
-UNITS = {}
+"""Contracts for the BalancedIncrementalQuantileFilter and for the stream strategies that delegate to a budget manager
+(UncertaintyZliobaite family: FixedUncertainty, VariableUncertainty, RandomVariableUncertainty, Split; StreamProbabilisticAL)
+— C03, C10.
+
+BIQF.query_by_utility  works on a copy of the window that keeps the window bound (a deque with the same maxlen): after k
+                       simulated instances the copy is the committed window extended by utilities[:k]; counters only in
+                       temporaries; result strictly increasing and in range (C10); self unchanged (C03). np.quantile/min/max
+                       are uninterpreted (thresholds are opaque).
+BIQF.update            observed += n, queried += |queried_indices|, window extended by the utilities (same bound) — exactly the
+                       final temporaries of query_by_utility (C10).
+delegation             <Strategy>.query hands the manager's query_by_utility the utilities it returns and returns the manager's
+                       indices unchanged; after validation it writes no attribute; update hands candidates / queried_indices
+                       through unchanged (managers are covered by their own contracts).
+"""
+import z3
+
+from pyvc.se import (State, ArrData, ListData, ObjData, RngData, Opaque, Ref, LoopSpec, Engine, fresh, fresh_fn, fresh_sel,
+                     to_real, to_int, I, R, B, is_z3, Unsupported, z3bool, DictData, producer)
+from pyvc.unit import se_unit, returns, raises, get_repo
+from pyvc.lib import Lib, as_array
+from .stream_budget import stream_lib, frame_goals, real, list_sorted_below
+
+FQ = "skactiveml/stream/budgetmanager/_balanced_incremental_quantile_filter.py"
+
+
+class DequeData(ListData):
+    """deque(maxlen=w): logical sequence of everything ever appended (n, sel) of which the last min(n, maxlen) are visible"""
+
+    def __init__(self, n, sel, kind, maxlen):
+        super().__init__(n, sel, kind)
+        self.maxlen = maxlen
+
+
+def biqf_lib():
+    L = stream_lib()
+    base_list_method = L.list_method
+
+    def list_method(E, ref, d, name, args, kwargs, st):
+        if isinstance(d, DequeData):
+            if name == "append":
+                v = args[0]
+                old, n = d.sel, to_int(d.n)
+                st.put(ref, DequeData(z3.simplify(n + 1), lambda j, old=old, n=n, v=v: _ite(j == n, v, old(j)), "f", d.maxlen))
+                return None
+            if name == "extend":
+                a = as_array(args[0], st) if isinstance(args[0], Ref) else None
+                if a is None:
+                    raise Unsupported("deque.extend of unknown value")
+                old, n = d.sel, to_int(d.n)
+                m = to_int(a.shape[0])
+                st.put(ref, DequeData(z3.simplify(n + m), lambda j, old=old, n=n, a=a: _ite(j >= n, a.sel(j - n), old(j)), "f", d.maxlen))
+                return None
+            if name == "copy":
+                return st.alloc(DequeData(d.n, d.sel, d.kind, d.maxlen))
+        return base_list_method(E, ref, d, name, args, kwargs, st)
+    L.list_method = list_method
+
+    def _copy(E, st, args, kw, node):
+        v = args[0]
+        if isinstance(v, Ref) and isinstance(st.get(v), DequeData):
+            d = st.get(v)
+            return st.alloc(DequeData(d.n, d.sel, d.kind, d.maxlen))     # copy.copy of a deque keeps maxlen
+        return base_copy(E, st, args, kw, node)
+    base_copy = L.functions["copy"]
+    for nm in ("copy", "deepcopy", "copy.copy", "copy.deepcopy"):
+        L.functions[nm] = _copy
+
+    def _list(E, st, args, kw, node):
+        v = args[0] if args else None
+        if isinstance(v, Ref) and isinstance(st.get(v), DequeData):
+            d = st.get(v)
+            vis = z3.If(to_int(d.n) <= d.maxlen, to_int(d.n), d.maxlen)
+            off = to_int(d.n) - vis
+            return st.alloc(ListData(vis, lambda j, d=d, off=off: d.sel(j + off), d.kind))     # a plain list: no window bound
+        return base_list(E, st, args, kw, node)
+    base_list = L.functions["list"]
+    L.functions["list"] = _list
+
+    @L.fn("deque")
+    def _deque(E, st, args, kw, node):
+        return st.alloc(DequeData(0, lambda j: BOTTOM_F, "f", to_int(kw.get("maxlen"))))
+
+    @L.fn("np.quantile", "np.min", "np.max")
+    def _stat(E, st, args, kw, node):
+        return fresh("stat", R)       # uninterpreted: thresholds are opaque values
+    return L
+
+
+BOTTOM_F = z3.RealVal(0)
+
+
+def _ite(c, a, b):
+    na, va = to_real(a)
+    nb, vb = to_real(b)
+    from pyvc.se import mk_fv
+    return mk_fv(z3.If(c, na, nb), z3.If(c, va, vb))
+
+
+class BSym:
+    def __init__(self, st):
+        self.w = z3.Int("w")
+        self.wtol = z3.Real("w_tol")
+        self.b = z3.Real("budget")
+        self.obs0, self.q0 = z3.Real("observed0"), z3.Real("queried0")
+        self.T0 = z3.Int("hist_len0")
+        self.h0 = fresh_sel("hist0", "f")
+        st.assume(self.T0 >= 0, self.w >= 1)
+        self.hist = st.alloc(DequeData(self.T0, self.h0, "f", self.w))
+        self.obj = st.alloc(ObjData("BalancedIncrementalQuantileFilter", {
+            "w": self.w, "w_tol": self.wtol, "budget": self.b, "budget_": self.b, "observed_samples_": self.obs0,
+            "queried_samples_": self.q0, "history_sorted_": self.hist}))
+        st.assume(self.obs0 >= 0, self.q0 >= 0)
+
+
+def unit_biqf_query():
+    def setup(E, st):
+        sym = BSym(st)
+        n = z3.Int("n")
+        st.assume(n >= 0)
+        u = ArrData((n,), fresh_sel("util", "f"), "f")
+        util = st.alloc(u)
+        st0 = st.fork()
+        fields0 = dict(st.get(sym.obj).fields)
+        hist0 = st.get(sym.hist)
+
+        def inv(E, s, k, pre):
+            q = s.get(s.env["queried_indices"])
+            h = s.get(s.env["tmp_history_sorted_"]) if isinstance(s.env.get("tmp_history_sorted_"), Ref) else None
+            j = z3.Int("j")
+            out = [("observed", real(s.env["tmp_observed_samples_"]) == sym.obs0 + z3.ToReal(k)),
+                   ("queried", real(s.env["tmp_queried_samples_"]) == sym.q0 + z3.ToReal(to_int(q.n)))] + list_sorted_below(q, k)
+            out.append(("C10.window_copy_keeps_the_window_bound", z3.BoolVal(isinstance(h, DequeData)) if not isinstance(h, DequeData)
+                        else h.maxlen == sym.w))
+            if isinstance(h, DequeData):
+                out.append(("C10.window_copy_length", to_int(h.n) == sym.T0 + k))
+                out.append(("C10.window_copy_old_part", z3.ForAll([j], z3.Implies(z3.And(0 <= j, j < sym.T0), _eq(h.sel(j), hist0.sel(j))))))
+                out.append(("C10.window_copy_new_part", z3.ForAll([j], z3.Implies(z3.And(0 <= j, j < k), _eq(h.sel(sym.T0 + j), u.sel(j))))))
+            out.append(("C03.window_is_not_the_working_copy", z3.BoolVal(isinstance(s.env.get("tmp_history_sorted_"), Ref)
+                                                                       and s.env["tmp_history_sorted_"].id != sym.hist.id)))
+            return out
+        return {"args": [sym.obj, util], "sym": sym, "fields0": fields0, "st0": st0, "n": n,
+                "loop_specs": {"loop0": LoopSpec(inv=inv)}}
+
+    def post(E, ctx, outs):
+        sym = ctx["sym"]
+        rets = returns(outs)
+        if not rets:
+            E.oblige("reaches.return", [], z3.BoolVal(False))
+        for o in rets:
+            q = o.state.get(o.value) if isinstance(o.value, Ref) else None
+            if not isinstance(q, ListData):
+                E.oblige("returns.list", o.state, False)
+                continue
+            for nm, g in list_sorted_below(q, ctx["n"]):
+                E.oblige("ensures.C10.result." + nm, o.state, g)
+            sym._st0 = ctx["st0"]
+            for nm, g in frame_goals(ctx["fields0"], ctx["st0"], o.state, sym):
+                E.oblige("ensures.C03." + nm, o.state, g)
+            hd = o.state.get(sym.hist)
+            E.oblige("ensures.C03.window_contents_untouched", o.state, z3.BoolVal(hd is ctx["st0"].get(sym.hist)))
+    return se_unit("stream.BalancedIncrementalQuantileFilter.query_by_utility", FQ, "BalancedIncrementalQuantileFilter.query_by_utility",
+                   "BalancedIncrementalQuantileFilter", setup, post, inline={"_validate_data", "_validate_budget"}, lib_factory=biqf_lib)
+
+
+def _eq(a, b):
+    na, va = to_real(a)
+    nb, vb = to_real(b)
+    return z3.And(na == nb, z3.Implies(z3.Not(na), va == vb))
+
+
+def unit_biqf_update():
+    def setup(E, st):
+        sym = BSym(st)
+        n, nq = z3.Int("n"), z3.Int("n_q")
+        st.assume(n >= 0, nq >= 0, nq <= n)
+        cand = st.alloc(ArrData((n, z3.Int("d")), fresh_sel("cand", "f", 2), "f"))
+        qi = ArrData((nq,), fresh_sel("qidx", "i"), "i")
+        t, u2 = z3.Ints("t u2")
+        st.assume(z3.ForAll([t], z3.Implies(z3.And(0 <= t, t < nq), z3.And(0 <= qi.sel(t), qi.sel(t) < n))))
+        st.assume(z3.ForAll([t, u2], z3.Implies(z3.And(0 <= t, t < u2, u2 < nq), qi.sel(t) < qi.sel(u2))))
+        u = ArrData((n,), fresh_sel("util", "f"), "f")
+        hist0 = st.get(sym.hist)
+        return {"args": [sym.obj, cand, st.alloc(qi), st.alloc(u)], "sym": sym, "n": n, "nq": nq, "u": u, "hist0": hist0}
+
+    def post(E, ctx, outs):
+        sym = ctx["sym"]
+        rets = returns(outs)
+        if not rets:
+            E.oblige("reaches.return", [], z3.BoolVal(False))
+        for o in raises(outs):
+            E.oblige("C10.update_does_not_raise", o.state, z3.BoolVal(False), exc=str(o.value))
+        j = z3.Int("j")
+        for o in rets:
+            f = o.state.get(sym.obj).fields
+            E.oblige("ensures.C10.observed_committed", o.state, real(f["observed_samples_"]) == sym.obs0 + z3.ToReal(ctx["n"]))
+            E.oblige("ensures.C10.queried_committed", o.state, real(f["queried_samples_"]) == sym.q0 + z3.ToReal(ctx["nq"]))
+            h = o.state.get(f["history_sorted_"]) if isinstance(f["history_sorted_"], Ref) else None
+            E.oblige("ensures.C10.window_keeps_its_bound", o.state, z3.BoolVal(False) if not isinstance(h, DequeData) else h.maxlen == sym.w)
+            if isinstance(h, DequeData):
+                E.oblige("ensures.C10.window_length", o.state, to_int(h.n) == sym.T0 + ctx["n"])
+                E.oblige("ensures.C10.window_extended_by_the_utilities", o.state,
+                         z3.And(z3.ForAll([j], z3.Implies(z3.And(0 <= j, j < sym.T0), _eq(h.sel(j), ctx["hist0"].sel(j)))),
+                                z3.ForAll([j], z3.Implies(z3.And(0 <= j, j < ctx["n"]), _eq(h.sel(sym.T0 + j), ctx["u"].sel(j))))))
+    return se_unit("stream.BalancedIncrementalQuantileFilter.update", FQ, "BalancedIncrementalQuantileFilter.update",
+                   "BalancedIncrementalQuantileFilter", setup, post, inline={"_validate_data", "_validate_budget"}, lib_factory=biqf_lib)
+
+
+# ------------------------------------------------------------------------------------------ delegations
+DELEG = [("skactiveml/stream/_uncertainty_zliobaite.py", "UncertaintyZliobaite", "FixedUncertainty"),
+         ("skactiveml/stream/_stream_probabilistic_al.py", "StreamProbabilisticAL", "StreamProbabilisticAL")]
+
+
+def deleg_lib(ctx):
+    L = Lib()
+
+    def qbu(E, st, recv, args, kw, node):
+        r = Opaque("manager_result")
+        ctx["qbu"].append((args, kw, r, st.get(recv)))
+        return r
+
+    def upd(E, st, recv, args, kw, node):
+        ctx["upd"].append((args, kw))
+        return recv
+    L.contracts["__manager__.query_by_utility"] = qbu
+    L.contracts["__manager__.update"] = upd
+
+    def validate(E, st, recv, args, kw, node):
+        """the strategy's _validate_data returns its (validated) arguments; with fitted attributes present it writes none
+        (idempotence is checked on the base class in contracts/stream_baselines.py)"""
+        fn = E.repo.resolve_method(st.get(recv).cls, "_validate_data")[1]
+        names = [a.arg for a in fn.args.args[1:]]
+        a = dict(zip(names, args))
+        a.update(kw)
+        ret = None
+        for x in reversed(fn.body):
+            if isinstance(x, __import__("ast").Return):
+                ret = x
+                break
+        out = []
+        for elt in ret.value.elts:
+            out.append(a.get(elt.id))
+        return tuple(out)
+    for c in ("UncertaintyZliobaite", "StreamProbabilisticAL", "SingleAnnotatorStreamQueryStrategy"):
+        L.contracts[f"{c}._validate_data"] = validate
+
+    @L.fn("call_func")
+    def _call_func(E, st, args, kw, node):
+        f = args[0]
+        from pyvc.se import BoundMethod
+        if isinstance(f, BoundMethod) and isinstance(f.recv, Ref):
+            return E.call_method(f.recv, f.name, list(args[1:]), {k: v for k, v in kw.items() if k != "**"}, st, node)
+        return E.unknown_call("call_func", args, kw, st, node)
+    return L
+
+
+def unit_delegation(file, owner, cls, which):
+    ctx = {"qbu": [], "upd": []}
+
+    def setup(E, st):
+        ctx["qbu"].clear()
+        ctx["upd"].clear()
+        mgr = st.alloc(ObjData("__manager__", {"__open__": True}))
+        fields = {p: Opaque("param:" + p) for p in E.repo.init_params(cls)}
+        fields.update({"budget_manager_": mgr, "random_state_": st.alloc(RngData(fresh_fn("stream", I, R), fresh("pos", I), fresh("aux", I))),
+                       "budget_": z3.Real("budget"), "__open__": True})
+        if cls == "StreamProbabilisticAL":
+            fields["metric"] = None        # the documented default: frequencies from the classifier itself
+        selfo = st.alloc(ObjData(cls, fields))
+        n = z3.Int("n")
+        st.assume(n >= 1)
+        cand = st.alloc(ArrData((n, z3.Int("d")), fresh_sel("cand", "o", 2), "o"))
+        ctx.update(self=selfo, cand=cand, mgr=mgr, fields0=dict(fields))
+        fn = E.repo.func(file, f"{owner}.{which}")
+        kwargs = {}
+        for a in fn.args.args[1:] + fn.args.kwonlyargs:
+            if a.arg == "candidates":
+                kwargs[a.arg] = cand
+            elif a.arg == "return_utilities":
+                kwargs[a.arg] = z3.Bool("return_utilities")
+            elif a.arg == "queried_indices":
+                ctx["qi"] = Opaque("queried_indices")
+                kwargs[a.arg] = ctx["qi"]
+            elif a.arg == "budget_manager_param_dict":
+                kwargs[a.arg] = None
+            else:
+                kwargs[a.arg] = Opaque("arg:" + a.arg)
+        return {"args": [selfo], "kwargs": kwargs}
+
+    def post(E, c2, outs):
+        rets = returns(outs)
+        if not rets:
+            E.oblige("reaches.return", [], z3.BoolVal(False))
+        for o in rets:
+            st = o.state
+            f = st.get(ctx["self"]).fields
+            same = all(f.get(k) is v or (isinstance(v, Ref) and isinstance(f.get(k), Ref) and f[k].id == v.id) for k, v in ctx["fields0"].items())
+            if which == "query":
+                E.oblige("C03.no_attribute_written_after_validation", st, z3.BoolVal(same and set(f) == set(ctx["fields0"])))
+                E.oblige("C03.manager_untouched", st, z3.BoolVal(st.get(ctx["mgr"]) is c2_mgr(ctx, st)))
+                E.oblige("C10.manager_consulted_once", st, z3.BoolVal(len(ctx["qbu"]) >= 1))
+                if ctx["qbu"]:
+                    args, kw, r, _ = ctx["qbu"][-1]
+                    val = o.value
+                    if isinstance(val, tuple):
+                        E.oblige("C10.returns_the_managers_indices_and_the_utilities_it_was_given", st,
+                                 z3.BoolVal(val[0] is r and (val[1] is args[0] or (isinstance(val[1], Ref) and isinstance(args[0], Ref) and val[1].id == args[0].id))))
+                    else:
+                        E.oblige("C10.returns_the_managers_indices", st, z3.BoolVal(val is r))
+            else:
+                E.oblige("C10.update_delegates_to_the_manager", st, z3.BoolVal(len(ctx["upd"]) >= 1))
+                if ctx["upd"]:
+                    args, kw = ctx["upd"][-1]
+                    c_ok = kw.get("candidates") is ctx["cand"] or (isinstance(kw.get("candidates"), Ref) and kw["candidates"].id == ctx["cand"].id)
+                    E.oblige("C10.candidates_and_indices_passed_through_unchanged", st, z3.BoolVal(c_ok and kw.get("queried_indices") is ctx["qi"]))
+    return se_unit(f"stream.delegation.{cls}.{which}", file, f"{owner}.{which}", cls, setup, post, lib_factory=lambda: deleg_lib(ctx))
+
+
+def c2_mgr(ctx, st):
+    return st.get(ctx["mgr"])
+
+
+UNITS = {"BalancedIncrementalQuantileFilter.query_by_utility": unit_biqf_query(),
+         "BalancedIncrementalQuantileFilter.update": unit_biqf_update()}
+for _f, _o, _c in DELEG:
+    for _w in ("query", "update"):
+        UNITS[f"delegation.{_c}.{_w}"] = unit_delegation(_f, _o, _c, _w)
